@@ -39,7 +39,8 @@ def monitor_shard(args):
     rc, out, secs = tlc(d, "SearchMonitor.tla", "SearchMonitor.cfg", workers=1, timeout=6000, heap="3g")
     errs = tlc_errors(out)
     if errs:
-        raise Infra("search monitor failed: %s\n%s" % (errs[:3], out[-2500:]))
+        at = out.find("Error:")
+        raise Infra("search monitor failed: %s\n%s\n...\n%s" % (errs[:3], out[at:at + 2500], out[-1500:]))
     rep = monitor_report(out)
     d2, g = tlc_stats(out)
     if d2 != len(lines) + 1:
@@ -169,7 +170,7 @@ def compute(tier, seed):
 PREDS = {
     "C01": ["C01_NoFalseNegative", "C01_QuerySucceeds"],
     "C02": ["C02_OnlyMatching", "C02_AtMostStored", "C02_ExactWithoutPrefilter", "C02_BlockGranular"],
-    "C03": ["C03_Faithful", "C03_IndependentOfMutation", "C03_ConcurrentAgree"],
+    "C03": ["C03_Faithful", "C03_IndependentOfMutation", "C03_RowsShareNothing", "C03_ConcurrentAgree"],
     "C11": ["C11_BagUnchanged", "C11_AnswersPreserved", "C11_MergeSucceeds", "C11_PartitionKept", "C11_RangesStillCover"],
     "C17": ["C17_EntryCountsMeasured", "C17_RowCount", "C17_FileEntryCounts", "C17_Layout", "C17_MetadataMatchesBytes",
             "C17_HelpersReturnWhatWasWritten"],
